@@ -372,7 +372,16 @@ func (a *Amount) UnmarshalText(value []byte) error {
 // UnmarshalJSON ensures amounts will be parsed even if defined as
 // numbers in the source JSON.
 func (a *Amount) UnmarshalJSON(value []byte) error {
-	return a.UnmarshalText(unquote(value))
+	if string(value) == "null" {
+		return nil
+	}
+	// only a bare null is empty, the quoted string "null" is not a number
+	amount, err := AmountFromString(string(unquote(value)))
+	if err != nil {
+		return err
+	}
+	*a = amount
+	return nil
 }
 
 func unquote(value []byte) []byte {
